@@ -1,3 +1,14 @@
--- This module serves as the root of the `Smtb` library.
--- Import modules here that should be built as part of the library.
-import Smtb.Basic
+-- umbrella: every module of the development (kept in sync by bin/check's audit)
+import Smtb.Circuit.Api
+import Smtb.Circuit.Trace
+import Smtb.Circuit.Main
+import Smtb.Model.Merkle
+import Smtb.Model.Batch
+import Smtb.Model.Poseidon
+import Smtb.Model.Tree
+import Smtb.Proofs.Sat
+import Smtb.Proofs.Merkle
+import Smtb.Proofs.Tree
+import Smtb.Properties.C01
+import Smtb.Properties.C02
+import Smtb.Properties.C18
